@@ -189,9 +189,17 @@ func SLen(s *Term) *Term {
 	if s.Op == "sconcat" {
 		return BVBin("bvadd", SLen(s.Args[0]), SLen(s.Args[1]))
 	}
+	if s.Op == "sslice" {
+		// s[lo:hi] (bounds were checked where the slice was taken)
+		return BVBin("bvsub", s.Args[2], s.Args[1])
+	}
 	return App("slen", SBV(64), s)
 }
 func SByte(s, i *Term) *Term {
+	if s.Op == "sslice" {
+		// s[lo:hi][i] == s[lo+i] (the index was checked against hi-lo where it is read)
+		return SByte(s.Args[0], BVBin("bvadd", s.Args[1], i))
+	}
 	if strLits[s] && i.BV != nil && i.BV.IsInt64() && i.BV.Int64() < int64(len(strLitText[s])) {
 		return BVu(uint64(strLitText[s][i.BV.Int64()]), 8)
 	}
